@@ -70,7 +70,7 @@ def gen_family(family, seed, n):
         elif family == "term_wild":
             lines += gen.gen_term_case(r, cid, wild=True)
         elif family == "term_modes":
-            lines += gen.gen_term_case(r, cid, kinds=[0, 9, 15, 21, 22, 23, 26, 26, 27, 27, 28, 28, 29, 29, 30, 30, 31])
+            lines += gen.gen_term_case(r, cid, kinds=[0, 9, 13, 15, 21, 22, 23, 26, 26, 27, 27, 28, 28, 29, 29, 30, 30, 31])
         elif family == "screen":
             lines += gen.gen_screen_case(r, cid)
         elif family == "screen_wild":
